@@ -1,13 +1,419 @@
 import DepLogic.Properties.C03
+import DepLogic.Properties.C12
 /-
-  C07 — marker text round trip.  (first part; the re-parse theorem is in `reparse_sound` below)
+  C07 — marker text round trip.
+
+  `str m` is a sequence of atoms, `and`, `or` and parentheses; packaging's parser turns it into
+  a nested list and `_build_markers` turns that into a marker again.  `M.items m` is the list
+  the text of `m` denotes.  Proved here, for every fuel that covers the nesting depth and every
+  environment:
+
+  * `items_sem`      : the reference evaluation of `items m` is the meaning of `m` — i.e. the
+                       parenthesisation chosen by `MultiMarker.__str__`/`MarkerUnion.__str__`
+                       (and the re-rendering of atoms, grouped `==`/`!=` atoms, literal-on-the-left
+                       atoms) denotes the marker it was printed from;
+  * `reparse_sound`  : whatever `_build_markers` builds from that list (through all the parse-time
+                       merging) means what `m` means;
+  * `str_empty_any`  : the empty / universal markers render as `<empty>` / the empty string.
+
+  Hypotheses: atoms of the well-defined classes (as C02), and `Printable m`: no Empty/Any inside a
+  compound and no grouped atom without values — part of the normal form (C15), checked on every
+  implementation result by the normal-form oracle.
+  Outside the model: that packaging reads `str m` as exactly `items m` (character level; compared
+  on every run, stream `C07.tokens`), and `parse_marker`'s special cases for `<empty>`, `` and `*`.
 -/
 namespace DepLogic
 namespace C07
-open M
+open M C03
 
 /-- the empty and universal markers render as `<empty>` and the empty string -/
 theorem str_empty_any : str .empty = "<empty>" ∧ str .any = "" := ⟨rfl, rfl⟩
+
+/-! ### reference evaluation of a flat token list -/
+
+/-- `acc` is the conjunction of the current `or`-group so far -/
+def go (f : PItem → Bool) : List PItem → Bool → Bool
+  | [], acc => acc
+  | .or_ :: ts, acc => acc || go f ts true
+  | .and_ :: ts, acc => go f ts acc
+  | .atom v l o r :: ts, acc => go f ts (acc && f (.atom v l o r))
+  | .group its :: ts, acc => go f ts (acc && f (.group its))
+
+theorem fold_go (f : PItem → Bool) : ∀ (ts : List PItem) (g : Bool) (rest : List Bool),
+    (ts.foldl (refStep f) (g :: rest)).any id = (go f ts g || rest.any id)
+  | [], g, rest => by simp [go]
+  | .or_ :: ts, g, rest => by
+    simp only [List.foldl_cons, refStep, go]
+    rw [fold_go f ts true (g :: rest)]
+    simp only [List.any_cons, id]
+    cases g <;> cases go f ts true <;> simp
+  | .and_ :: ts, g, rest => by
+    simp only [List.foldl_cons, refStep, go]
+    exact fold_go f ts g rest
+  | .atom v l o r :: ts, g, rest => by
+    simp only [List.foldl_cons, refStep, go]
+    exact fold_go f ts _ rest
+  | .group its :: ts, g, rest => by
+    simp only [List.foldl_cons, refStep, go]
+    exact fold_go f ts _ rest
+
+theorem refSem_group (env : Env) (fuel : Nat) (its : List PItem) :
+    refSem env (fuel + 1) (.group its) = go (refSem env fuel) its true := by
+  simp only [refSem]
+  rw [fold_go]; simp
+
+/-- no top-level `or` -/
+def OrFree : List PItem → Prop
+  | [] => True
+  | .or_ :: _ => False
+  | _ :: ts => OrFree ts
+
+theorem go_acc (f : PItem → Bool) : ∀ (ts : List PItem) (acc : Bool), OrFree ts → go f ts acc = (acc && go f ts true)
+  | [], acc, _ => by simp [go]
+  | .or_ :: ts, acc, h => by simp [OrFree] at h
+  | .and_ :: ts, acc, h => by simp only [go]; exact go_acc f ts acc h
+  | .atom v l o r :: ts, acc, h => by
+    simp only [go]; rw [go_acc f ts _ h, go_acc f ts (true && _) h]; simp [Bool.and_assoc]
+  | .group its :: ts, acc, h => by
+    simp only [go]; rw [go_acc f ts _ h, go_acc f ts (true && _) h]; simp [Bool.and_assoc]
+
+theorem go_append_and (f : PItem → Bool) : ∀ (xs ys : List PItem) (acc : Bool), OrFree xs →
+    go f (xs ++ .and_ :: ys) acc = go f ys (go f xs acc)
+  | [], ys, acc, _ => by simp [go]
+  | .or_ :: xs, ys, acc, h => by simp [OrFree] at h
+  | .and_ :: xs, ys, acc, h => by simp only [List.cons_append, go]; exact go_append_and f xs ys acc h
+  | .atom v l o r :: xs, ys, acc, h => by simp only [List.cons_append, go]; exact go_append_and f xs ys _ h
+  | .group its :: xs, ys, acc, h => by simp only [List.cons_append, go]; exact go_append_and f xs ys _ h
+
+theorem go_append_or (f : PItem → Bool) : ∀ (xs ys : List PItem) (acc : Bool),
+    go f (xs ++ .or_ :: ys) acc = (go f xs acc || go f ys true)
+  | [], ys, acc => by simp [go]
+  | .or_ :: xs, ys, acc => by
+    simp only [List.cons_append, go]; rw [go_append_or f xs ys true]; simp [Bool.or_assoc]
+  | .and_ :: xs, ys, acc => by simp only [List.cons_append, go]; exact go_append_or f xs ys acc
+  | .atom v l o r :: xs, ys, acc => by simp only [List.cons_append, go]; exact go_append_or f xs ys _
+  | .group its :: xs, ys, acc => by simp only [List.cons_append, go]; exact go_append_or f xs ys _
+
+theorem orFree_append_and : ∀ (xs ys : List PItem), OrFree xs → OrFree ys → OrFree (xs ++ .and_ :: ys)
+  | [], _, _, h => h
+  | .or_ :: _, _, h, _ => by simp [OrFree] at h
+  | .and_ :: xs, ys, h, h' => orFree_append_and xs ys h h'
+  | .atom _ _ _ _ :: xs, ys, h, h' => orFree_append_and xs ys h h'
+  | .group _ :: xs, ys, h, h' => orFree_append_and xs ys h h'
+
+/-- joining or-free parts with `and`: or-free, and evaluates to the conjunction -/
+theorem join_and (f : PItem → Bool) : ∀ (parts : List (List PItem)), (∀ p ∈ parts, OrFree p) →
+    OrFree (joinItems .and_ parts) ∧ go f (joinItems .and_ parts) true = parts.all (fun p => go f p true)
+  | [], _ => by simp [joinItems, OrFree, go]
+  | [x], h => by simp [joinItems, h x (by simp)]
+  | x :: y :: rest, h => by
+    have hx := h x (by simp)
+    obtain ⟨h1, h2⟩ := join_and f (y :: rest) (fun p hp => h p (by simp [hp]))
+    refine ⟨orFree_append_and _ _ hx h1, ?_⟩
+    simp only [joinItems, List.all_cons] at h2 ⊢
+    rw [go_append_and f _ _ _ hx, go_acc f _ _ h1, h2]
+
+theorem join_or (f : PItem → Bool) : ∀ (parts : List (List PItem)), parts ≠ [] →
+    go f (joinItems .or_ parts) true = parts.any (fun p => go f p true)
+  | [], h => absurd rfl h
+  | [x], _ => by simp [joinItems]
+  | x :: y :: rest, _ => by
+    have := join_or f (y :: rest) (by simp)
+    simp only [joinItems, List.any_cons] at this ⊢
+    rw [go_append_or, this]
+
+/-! ### what can be printed -/
+
+mutual
+/-- nothing unprintable inside: no Empty/Any child, no grouped atom without values -/
+def Printable : M → Prop
+  | .any => False
+  | .empty => False
+  | .expr _ => True
+  | .eqU _ vs => vs ≠ []
+  | .neM _ vs => vs ≠ []
+  | .multi ms => ms ≠ [] ∧ PrintableL ms
+  | .union ms => ms ≠ [] ∧ PrintableL ms
+def PrintableL : List M → Prop
+  | [] => True
+  | m :: ms => Printable m ∧ PrintableL ms
+end
+
+theorem mop_roundtrip (o : MOp) : MOp.ofString? o.str = some o ∧ o.reflect.reflect = o := by
+  cases o <;> simp [MOp.str, MOp.ofString?, MOp.reflect]
+
+/-- the rendered atom is read back as the same atom -/
+theorem atomOf_atomItem (a : Atom) (hw : a.WF) :
+    (match atomItem a with
+     | .atom v l o r => atomOf v l o r
+     | _ => none) = some a := by
+  unfold atomItem
+  have h1 := mop_roundtrip a.op
+  have h2 := mop_roundtrip a.op.reflect
+  unfold Atom.WF at hw
+  cases hr : a.reversed
+  · simp only [Bool.false_eq_true, if_false, atomOf, h1.1, Option.bind_some, if_true, mkAtom]
+    rw [hr] at hw; rw [hw]; cases a; simp_all
+  · simp only [if_true, atomOf, h2.1, Option.bind_some, Bool.false_eq_true, if_false, mkAtom, h1.2]
+    rw [hr] at hw; rw [hw]; cases a; simp_all
+
+theorem atomOf_eq (n v : String) (hn : StrName n) :
+    atomOf true n "==" v = some ⟨n, .eq, v, false, .gen ⟨.eq, v⟩⟩ ∧
+    atomOf true n "!=" v = some ⟨n, .ne, v, false, .gen ⟨.ne, v⟩⟩ := by
+  have hv : versionLikeNames.contains n = false := hn.2.1
+  have hv' : n ∉ versionLikeNames := by simpa using hv
+  constructor <;> simp [atomOf, MOp.ofString?, mkAtom, getSpecifier, hv', MOp.toGOp?]
+
+section
+variable (env : Env) (he : EnvTotal env)
+include he
+
+/-- one `n == "v"` / `n != "v"` token of a grouped atom -/
+theorem eq_token (n v : String) (hn : StrName n) (fuel : Nat) :
+    ∃ t, env n = some (.str t) ∧ refSem env (fuel + 1) (.atom true n "==" v) = (t == v) ∧
+      refSem env (fuel + 1) (.atom true n "!=" v) = (t != v) := by
+  obtain ⟨t, ht⟩ := he.str n hn.2.2.1 (by simpa using hn.2.2.2)
+  have hx : (n == "extra") = false := by simpa using hn.2.2.1
+  have hs : (n == "extras" || n == "dependency_groups") = false := by
+    have := hn.2.2.2; simp only [setNames, List.contains_cons, List.contains_nil, Bool.or_false] at this; exact this
+  have hve : versionEvalNames.contains n = false := hn.1
+  refine ⟨t, ht, ?_, ?_⟩
+  · simp only [refSem, (atomOf_eq n v hn).1, sem, Atom.eval, hx, Bool.false_eq_true, if_false, ht, hs, hve, strOp,
+      Option.getD_some]
+  · simp only [refSem, (atomOf_eq n v hn).2, sem, Atom.eval, hx, Bool.false_eq_true, if_false, ht, hs, hve, strOp,
+      Option.getD_some]
+
+end
+
+/-! ### the main lemma -/
+
+theorem printableL_iff (ms : List M) : PrintableL ms ↔ ∀ c ∈ ms, Printable c := by
+  induction ms with
+  | nil => simp [PrintableL]
+  | cons m ms ih => simp [PrintableL, ih]
+
+theorem mem_joinItems (sep : PItem) : ∀ (parts : List (List PItem)) (it : PItem),
+    it ∈ joinItems sep parts → it = sep ∨ ∃ p ∈ parts, it ∈ p
+  | [], it, h => by simp [joinItems] at h
+  | [x], it, h => by simp only [joinItems] at h; exact Or.inr ⟨x, by simp, h⟩
+  | x :: y :: rest, it, h => by
+    simp only [joinItems, List.mem_append, List.mem_cons] at h
+    rcases h with h | h | h
+    · exact Or.inr ⟨x, by simp, h⟩
+    · exact Or.inl h
+    · rcases mem_joinItems sep (y :: rest) it h with h | ⟨p, hp, hi⟩
+      · exact Or.inl h
+      · exact Or.inr ⟨p, by simp [hp], hi⟩
+
+theorem pgood_sep (env : Env) (k : Nat) : PGood env k .and_ ∧ PGood env k .or_ := by
+  cases k <;> simp [PGood]
+
+theorem pgood_group (env : Env) (k : Nat) (its : List PItem) (h : ∀ it ∈ its, PGood env k it) :
+    PGood env (k + 1) (.group its) := by
+  simpa [PGood] using h
+
+/-- what is established for one marker at evaluation depth `k` -/
+structure ItemsOk (env : Env) (k : Nat) (m : M) : Prop where
+  val : go (refSem env k) (items m) true = sem env m
+  orFree : (match m with | .expr _ | .multi _ => True | _ => False) → OrFree (items m)
+  good : ∀ it ∈ items m, PGood env k it
+
+section
+variable (env : Env) (he : EnvTotal env)
+include he
+
+theorem items_ok : ∀ (n : Nat) (m : M), C12.depth m ≤ n → Printable m → GAll (Good env) m →
+    ∀ k, C12.depth m ≤ k → ItemsOk env k m := by
+  intro n
+  induction n with
+  | zero => intro m h; cases m <;> simp [C12.depth] at h
+  | succ n ih =>
+    intro m hd hp hg k hk
+    obtain ⟨k0, rfl⟩ : ∃ k0, k = k0 + 1 := by
+      cases k with
+      | zero => cases m <;> simp [C12.depth] at hk
+      | succ k0 => exact ⟨k0, rfl⟩
+    cases m with
+    | any => simp [Printable] at hp
+    | empty => simp [Printable] at hp
+    | expr a =>
+      have hw : a.WF := by simp only [GAll, Good, GoodAtom] at hg; exact hg.1
+      have hat := atomOf_atomItem a hw
+      cases hr : a.reversed
+      · simp only [atomItem, hr, Bool.false_eq_true, if_false] at hat
+        refine ⟨?_, fun _ => ?_, ?_⟩
+        · simp [items, atomItem, hr, go, refSem, hat, sem]
+        · simp [items, atomItem, hr, OrFree]
+        · intro it hit
+          simp only [items, atomItem, hr, Bool.false_eq_true, if_false, List.mem_singleton] at hit
+          subst hit
+          simp only [PGood]; intro a' ha'; rw [hat] at ha'; cases ha'
+          simpa [GAll, Good] using hg
+      · simp only [atomItem, hr, if_true] at hat
+        refine ⟨?_, fun _ => ?_, ?_⟩
+        · simp [items, atomItem, hr, go, refSem, hat, sem]
+        · simp [items, atomItem, hr, OrFree]
+        · intro it hit
+          simp only [items, atomItem, hr, if_true, List.mem_singleton] at hit
+          subst hit
+          simp only [PGood]; intro a' ha'; rw [hat] at ha'; cases ha'
+          simpa [GAll, Good] using hg
+    | eqU nm vs =>
+      have hn : StrName nm := by simpa [GAll, Good] using hg
+      obtain ⟨t, ht, _⟩ := eq_token env he nm "" hn k0
+      refine ⟨?_, fun h => by simp at h, ?_⟩
+      · simp only [items, sem, ht]
+        rw [join_or _ _ (by simpa [Printable] using hp)]
+        simp only [List.any_map]
+        have : ∀ v, (go (refSem env (k0 + 1)) [PItem.atom true nm "==" v] true) = (t == v) := by
+          intro v
+          obtain ⟨t', ht', h1, _⟩ := eq_token env he nm v hn k0
+          rw [ht] at ht'; cases ht'
+          simp [go, h1]
+        simp only [Function.comp_def, this]
+        rw [List.contains_eq_any_beq]
+      · intro it hit
+        rcases mem_joinItems _ _ _ hit with h | ⟨p, hp', hi⟩
+        · subst h; exact (pgood_sep env _).2
+        · simp only [List.mem_map] at hp'
+          obtain ⟨v, _, rfl⟩ := hp'
+          simp only [List.mem_singleton] at hi; subst hi
+          simp only [PGood]
+          intro a' ha'
+          rw [(atomOf_eq nm v hn).1] at ha'; cases ha'
+          refine ⟨?_, ?_⟩
+          · have hv' : nm ∉ versionLikeNames := by simpa using hn.2.1
+            simp [Atom.WF, getSpecifier, hv', MOp.toGOp?]
+          · have h1 : nm ≠ "extra" := hn.2.2.1
+            simp only [h1, if_false, hn.2.2.2, Bool.false_eq_true, hn.2.1]
+            exact hn
+    | neM nm vs =>
+      have hn : StrName nm := by simpa [GAll, Good] using hg
+      obtain ⟨t, ht, _⟩ := eq_token env he nm "" hn k0
+      refine ⟨?_, fun h => by simp at h, ?_⟩
+      · simp only [items, sem, ht]
+        rw [(join_and _ _ (by
+          intro p hp'; simp only [List.mem_map] at hp'; obtain ⟨v, _, rfl⟩ := hp'; simp [OrFree])).2]
+        simp only [List.all_map]
+        have : ∀ v, (go (refSem env (k0 + 1)) [PItem.atom true nm "!=" v] true) = (t != v) := by
+          intro v
+          obtain ⟨t', ht', _, h2⟩ := eq_token env he nm v hn k0
+          rw [ht] at ht'; cases ht'
+          simp [go, h2]
+        simp only [Function.comp_def, this]
+        rw [List.contains_eq_any_beq, Bool.eq_iff_iff]
+        simp [List.all_eq_true, List.any_eq_true, bne_iff_ne]
+      · intro it hit
+        rcases mem_joinItems _ _ _ hit with h | ⟨p, hp', hi⟩
+        · subst h; exact (pgood_sep env _).1
+        · simp only [List.mem_map] at hp'
+          obtain ⟨v, _, rfl⟩ := hp'
+          simp only [List.mem_singleton] at hi; subst hi
+          simp only [PGood]
+          intro a' ha'
+          rw [(atomOf_eq nm v hn).2] at ha'; cases ha'
+          refine ⟨?_, ?_⟩
+          · have hv' : nm ∉ versionLikeNames := by simpa using hn.2.1
+            simp [Atom.WF, getSpecifier, hv', MOp.toGOp?]
+          · have h1 : nm ≠ "extra" := hn.2.2.1
+            simp only [h1, if_false, hn.2.2.2, Bool.false_eq_true, hn.2.1]
+            exact hn
+    | multi ms =>
+      have hdl : C12.depthL ms ≤ n := by simp only [C12.depth] at hd; omega
+      have hkl : C12.depthL ms ≤ k0 := by simp only [C12.depth] at hk; omega
+      have hpl := (printableL_iff ms).1 hp.2
+      have hgl := (GAllL_iff _ ms).1 hg
+      have kids : ∀ cs : List M, (∀ c ∈ cs, c ∈ ms) →
+          (∀ p ∈ itemsMultiChildren cs, OrFree p) ∧
+          (itemsMultiChildren cs).all (fun p => go (refSem env (k0 + 1)) p true) = cs.all (sem env) ∧
+          (∀ p ∈ itemsMultiChildren cs, ∀ it ∈ p, PGood env (k0 + 1) it) := by
+        intro cs
+        induction cs with
+        | nil => intro _; simp [itemsMultiChildren]
+        | cons c cs ihc =>
+          intro hsub
+          have hc : c ∈ ms := hsub c (by simp)
+          obtain ⟨r1, r2, r3⟩ := ihc (fun x hx => hsub x (by simp [hx]))
+          have dc : C12.depth c ≤ n := Nat.le_trans ((C12.depthL_le ms _).1 (Nat.le_refl _) c hc) hdl
+          have dk : C12.depth c ≤ k0 := Nat.le_trans ((C12.depthL_le ms _).1 (Nat.le_refl _) c hc) hkl
+          have same := ih c dc (hpl c hc) (hgl c hc) (k0 + 1) (Nat.le_succ_of_le dk)
+          have inner := ih c dc (hpl c hc) (hgl c hc) k0 dk
+          have grp : go (refSem env (k0 + 1)) [PItem.group (items c)] true = sem env c := by
+            simp only [go, Bool.true_and]; rw [refSem_group]; exact inner.val
+          have grpG : ∀ it ∈ [PItem.group (items c)], PGood env (k0 + 1) it := by
+            intro it hit; simp only [List.mem_singleton] at hit; subst hit
+            exact pgood_group env k0 _ inner.good
+          simp only [itemsMultiChildren, List.all_cons, List.mem_cons, forall_eq_or_imp]
+          cases c with
+          | expr a => exact ⟨⟨same.orFree trivial, r1⟩, by rw [same.val, r2], same.good, r3⟩
+          | multi xs => exact ⟨⟨same.orFree trivial, r1⟩, by rw [same.val, r2], same.good, r3⟩
+          | any => exact ⟨⟨by simp [OrFree], r1⟩, by rw [grp, r2], grpG, r3⟩
+          | empty => exact ⟨⟨by simp [OrFree], r1⟩, by rw [grp, r2], grpG, r3⟩
+          | eqU _ _ => exact ⟨⟨by simp [OrFree], r1⟩, by rw [grp, r2], grpG, r3⟩
+          | neM _ _ => exact ⟨⟨by simp [OrFree], r1⟩, by rw [grp, r2], grpG, r3⟩
+          | union _ => exact ⟨⟨by simp [OrFree], r1⟩, by rw [grp, r2], grpG, r3⟩
+      obtain ⟨r1, r2, r3⟩ := kids ms (fun _ h => h)
+      have J := join_and (refSem env (k0 + 1)) (itemsMultiChildren ms) r1
+      refine ⟨?_, fun _ => J.1, ?_⟩
+      · simp only [items, sem, semAll_eq]; rw [J.2, r2]
+      · intro it hit
+        simp only [items] at hit
+        rcases mem_joinItems _ _ _ hit with h | ⟨p, hp', hi⟩
+        · subst h; exact (pgood_sep env _).1
+        · exact r3 p hp' it hi
+    | union ms =>
+      have hdl : C12.depthL ms ≤ n := by simp only [C12.depth] at hd; omega
+      have hkl : C12.depthL ms ≤ k0 := by simp only [C12.depth] at hk; omega
+      have hpl := (printableL_iff ms).1 hp.2
+      have hgl := (GAllL_iff _ ms).1 hg
+      have kids : ∀ cs : List M, (∀ c ∈ cs, c ∈ ms) →
+          (itemsList cs).any (fun p => go (refSem env (k0 + 1)) p true) = cs.any (sem env) ∧
+          (∀ p ∈ itemsList cs, ∀ it ∈ p, PGood env (k0 + 1) it) ∧ (itemsList cs = [] ↔ cs = []) := by
+        intro cs
+        induction cs with
+        | nil => intro _; simp [itemsList]
+        | cons c cs ihc =>
+          intro hsub
+          have hc : c ∈ ms := hsub c (by simp)
+          obtain ⟨r2, r3, _⟩ := ihc (fun x hx => hsub x (by simp [hx]))
+          have dc : C12.depth c ≤ n := Nat.le_trans ((C12.depthL_le ms _).1 (Nat.le_refl _) c hc) hdl
+          have dk : C12.depth c ≤ k0 := Nat.le_trans ((C12.depthL_le ms _).1 (Nat.le_refl _) c hc) hkl
+          have same := ih c dc (hpl c hc) (hgl c hc) (k0 + 1) (Nat.le_succ_of_le dk)
+          simp only [itemsList, List.any_cons, List.mem_cons, forall_eq_or_imp]
+          exact ⟨by rw [same.val, r2], ⟨same.good, r3⟩, by simp⟩
+      obtain ⟨r2, r3, r4⟩ := kids ms (fun _ h => h)
+      refine ⟨?_, fun h => by simp at h, ?_⟩
+      · simp only [items, sem, semAny_eq]
+        rw [join_or _ _ (by rw [Ne, r4]; exact hp.1), r2]
+      · intro it hit
+        simp only [items] at hit
+        rcases mem_joinItems _ _ _ hit with h | ⟨p, hp', hi⟩
+        · subst h; exact (pgood_sep env _).2
+        · exact r3 p hp' it hi
+
+/-- the token list of the rendered marker evaluates (reference evaluation) to the marker's meaning -/
+theorem items_sem (m : M) (hp : Printable m) (hg : GAll (Good env) m) (k : Nat) (hk : C12.depth m ≤ k) :
+    refSem env (k + 1) (.group (items m)) = sem env m := by
+  rw [refSem_group]
+  exact (items_ok env he _ m (Nat.le_refl _) hp hg k hk).val
+
+/-- re-parsing the text of `m` (packaging's list -> `_build_markers`, with all its merging) yields a
+    marker that means what `m` means -/
+theorem reparse_sound (hF : FromSpecOk env) (hP : PyMergeOk env) (m m' : M) (hp : Printable m)
+    (hg : GAll (Good env) m) (k : Nat) (hk : C12.depth m ≤ k)
+    (hb : build (k + 1) (.group (items m)) = some m') : sem env m' = sem env m := by
+  have good : PGood env (k + 1) (.group (items m)) :=
+    pgood_group env k _ (items_ok env he _ m (Nat.le_refl _) hp hg k hk).good
+  rw [(build_sound env he hF hP (k + 1) _ m' good hb).2]
+  exact items_sem env he m hp hg k hk
+
+end
+
+/-- non-vacuity: a printable marker with a parenthesised group, a literal-on-the-left atom and a grouped atom -/
+example : let m : M := .multi [.expr ⟨"sys_platform", .in_, "lin", true, .gen ⟨.contains, "lin"⟩⟩,
+                                .union [.eqU "os_name" ["a", "b"], .neM "platform_machine" ["x"]]]
+    Printable m ∧ C12.depth m ≤ 3 := by
+  simp [Printable, PrintableL, C12.depth, C12.depthL]
 
 end C07
 end DepLogic
